@@ -556,7 +556,7 @@ func pendingTypestateOnly(c *core.Ctx, p *load.Prog, fd *ast.FuncDecl) {
 	opVar := ""
 	ast.Inspect(fd.Body, func(n ast.Node) bool {
 		if as, ok := n.(*ast.AssignStmt); ok && len(as.Rhs) == 1 && len(as.Lhs) >= 1 {
-			if call, ok := as.Rhs[0].(*ast.CallExpr); ok && wire.Canon(call.Fun) == "readOpCode" {
+			if call, ok := as.Rhs[0].(*ast.CallExpr); ok && calleeNamed(call, "readOpCode") {
 				if id, ok := as.Lhs[0].(*ast.Ident); ok && id.Name != "_" {
 					opVar = id.Name
 				}
